@@ -149,10 +149,8 @@ func setterLayers(j judge, tier string) []Layer {
 	var layers []Layer
 	// S1: SetInt
 	{
-		maxBits := 1300
-		if thorough {
-			maxBits = 4000
-		}
+		maxBits := 4000
+		_ = thorough
 		ints := edgeInts(maxBits)
 		layers = append(layers, Layer{
 			Name:   "S1-SetInt",
